@@ -96,7 +96,7 @@ Ok(e) ==
     [] e.op \in {"chainmul64", "dbladd64", "chainmul1024"} -> Agrees(e, e.r, SMul(e, e.k, e.p))
     [] e.op = "mul128" ->
          /\ Agrees(e, e.r, SMul(e, e.k, e.p))
-         /\ Residues(e.r512, n) /\ L(n)!ProjEq(e.r, e.r512)      \* the two implementations agree
+         /\ (Has(e, "r512") => (Residues(e.r512, n) /\ L(n)!ProjEq(e.r, e.r512)))   \* the two implementations agree
     [] OTHER -> FALSE
 
 ModelOk(e) ==
